@@ -432,7 +432,7 @@ pub fn gen_nuts_scenario(seed: u64) -> NutsScenario {
 pub struct LeapfrogScenario {
     pub target: Target,
     pub transform: TransformSpec,
-    /// 0 Euclidean, 1 ExactNormal
+    /// 0 Euclidean, 1 ExactNormal, 2 Microcanonical
     pub kind: u8,
     pub step_size: f64,
     pub x0: Vec<f64>,
@@ -450,7 +450,11 @@ impl Scenario for LeapfrogScenario {
         let mut math = SimMath::new(CpuMath::new(density), log.clone(), events);
         math.scripted_gaussian.lock().unwrap().push_back(self.v0.clone());
         let mut rng = ScriptedRng { u32s: Default::default(), u64s: Default::default(), calls: vec![], exhausted: false };
-        let kind = if self.kind == 1 { KineticEnergyKind::ExactNormal } else { KineticEnergyKind::Euclidean };
+        let kind = match self.kind {
+            1 => KineticEnergyKind::ExactNormal,
+            2 => KineticEnergyKind::Microcanonical,
+            _ => KineticEnergyKind::Euclidean,
+        };
         nuts_rs::verif::tap_enable();
         let r = nuts_rs::verif::leapfrog_sequence(&mut math, &self.transform.to_verif(), kind, self.step_size, &self.x0, &mut rng, &self.forward);
         let tap = nuts_rs::verif::tap_take();
@@ -469,7 +473,19 @@ impl Scenario for LeapfrogScenario {
             out.probe("overflow_skipped", 1);
             return out;
         }
-        let kname = if self.kind == 1 { "exact_normal" } else { "euclidean" };
+        if self.kind == 2 {
+            // conditioning of the closed-form ESH kick: with delta = sqrt(d) eps/2 |g_y| / (d-1) the update combines
+            // terms of size exp(2|delta|) for a backward step; beyond |delta| ~ 5 neither the implementation nor
+            // the reference resolves the momentum (such steps have energy errors of (d-1)|delta| and diverge)
+            let sd = (n as f64).sqrt();
+            let dmax = tap.iter().map(|t| sd * self.step_size / 2.0 * t.gy.iter().map(|g| g * g).sum::<f64>().sqrt() / (n as f64 - 1.0).max(1.0)).fold(0.0, f64::max);
+            if !(dmax <= 5.0) {
+                out.probe("microcanonical_large_kick_skipped", 1);
+                return out;
+            }
+            out.probe("microcanonical_sequences_checked", 1);
+        }
+        let kname = match self.kind { 1 => "exact_normal", 2 => "microcanonical", _ => "euclidean" };
         let tname = match &self.transform { TransformSpec::Diag { .. } => "diag", TransformSpec::LowRank { .. } => "lowrank" };
         let f = self.transform.jacobian();
         let scale_of = |v: &[f64]| v.iter().fold(0.0f64, |a, x| a.max(x.abs()));
@@ -497,6 +513,20 @@ impl Scenario for LeapfrogScenario {
                 }
             }
             // energy = 1/2 |v|^2 - logp - logdet
+            if self.kind == 2 {
+                // microcanonical: unit momentum, energy = accumulated kinetic energy - logp - logdet
+                let vn = t.v.iter().map(|v| v * v).sum::<f64>().sqrt();
+                if (vn - 1.0).abs() > 1e-9 {
+                    out.violate("C02/microcanonical_momentum_not_unit".to_string(), format!("state {k}: |v| = {vn:e}"));
+                    return out;
+                }
+                let e = t.kinetic - t.logp - t.logdet;
+                if (e - t.energy).abs() > 1e-9 * (1.0 + e.abs() + t.kinetic.abs()) {
+                    out.violate(format!("C02/energy/{kname}"), format!("state {k}: energy {:e}, kinetic - logp - logdet = {e:e}", t.energy));
+                    return out;
+                }
+                continue;
+            }
             let e = 0.5 * t.v.iter().map(|v| v * v).sum::<f64>() - t.logp - t.logdet;
             if (e - t.energy).abs() > 1e-9 * (1.0 + e.abs()) {
                 out.violate(format!("C02/energy/{kname}"), format!("state {k}: energy {:e}, 1/2|v|^2 - logp - logdet = {e:e}", t.energy));
@@ -545,6 +575,38 @@ impl Scenario for LeapfrogScenario {
                         out.violate(format!("C02/momentum_step_differs_from_textbook_leapfrog/{tname}"), format!("step {k}: reference v'[{j}] = {v1:e}, implementation {:e}", e.v[j]));
                         return out;
                     }
+                }
+            } else if self.kind == 2 {
+                // Microcanonical: closed-form ESH half kick, drift y' = y + eps sqrt(d) v, half kick
+                // (both signs of eps: a backward step is the forward step of the time-reversed flow)
+                let sd = (n as f64).sqrt();
+                let gn = s.gy.iter().map(|g| g * g).sum::<f64>().sqrt();
+                let gn1 = e.gy.iter().map(|g| g * g).sum::<f64>().sqrt();
+                if !(gn > 1e-12 && gn1 > 1e-12) {
+                    out.probe("microcanonical_zero_gradient_skipped", 1);
+                    continue;
+                }
+                let (v_h, dke1, cond1, _) = crate::props_mclmc::ref_esh(&s.gy, &s.v, sd * eps / 2.0);
+                let y1: Vec<f64> = (0..n).map(|i| s.y[i] + eps * sd * v_h[i]).collect();
+                let (v1, dke2, cond2, _) = crate::props_mclmc::ref_esh(&e.gy, &v_h, sd * eps / 2.0);
+                if cond1.abs() < 1e-6 || cond2.abs() < 1e-6 {
+                    out.probe("microcanonical_ill_conditioned_skipped", 1);
+                    continue;
+                }
+                for i in 0..n {
+                    if (y1[i] - e.y[i]).abs() > 1e-8 * (1.0 + scale_of(&e.y) + (eps * sd).abs()) {
+                        out.violate(format!("C02/microcanonical_position_step/{tname}"), format!("step {k} ({}): reference y'[{i}] = {:e}, implementation {:e}", if *fwd { "forward" } else { "backward" }, y1[i], e.y[i]));
+                        return out;
+                    }
+                    if (v1[i] - e.v[i]).abs() > 1e-7 / cond1.abs().min(cond2.abs()).min(1.0) {
+                        out.violate(format!("C02/microcanonical_momentum_step/{tname}"), format!("step {k} ({}): reference v'[{i}] = {:e}, implementation {:e} (closed-form ESH half kicks with step sqrt(d) eps / 2 = {:e})", if *fwd { "forward" } else { "backward" }, v1[i], e.v[i], sd * eps / 2.0));
+                        return out;
+                    }
+                }
+                let dk = e.kinetic - s.kinetic;
+                if (dk - (dke1 + dke2)).abs() > 1e-7 * (1.0 + dke1.abs() + dke2.abs()) * n as f64 / cond1.abs().min(cond2.abs()).min(1.0) {
+                    out.violate(format!("C02/microcanonical_kinetic_energy_change/{tname}"), format!("step {k} ({}): kinetic energy changed by {dk:e}, closed form {:e}", if *fwd { "forward" } else { "backward" }, dke1 + dke2));
+                    return out;
                 }
             } else {
                 // ExactNormal: kick with the residual force (y + g_y), rotate (y, v), kick again
@@ -618,7 +680,12 @@ pub fn gen_leapfrog_scenario(seed: u64) -> LeapfrogScenario {
         3 => Target::LogGamma { a: (0..d).map(|_| r.uniform(1.0, 5.0)).collect() },
         _ => Target::Banana { dim: d, b: r.uniform(0.1, 1.0) },
     };
-    let kind = if r.chance(0.35) { 1 } else { 0 };
+    // (the microcanonical kind needs dimension >= 2)
+    let kind = match r.below(20) {
+        0..=6 => 1,
+        7..=11 if d >= 2 => 2,
+        _ => 0,
+    };
     let transform = if kind == 1 && target == crate::density::std_normal(d) && r.chance(0.5) {
         TransformSpec::Diag { stds: vec![1.0; d], mean: vec![0.0; d] }
     } else {
